@@ -66,6 +66,14 @@ def jobs(tier):
                     js.append({'fn': 'job', 'weight': w * ww, 'group': '%s/%s' % (impl, kind),
                                'args': dict(fam=fam, kind=kind, impl=impl, sizes=sizes, n=n,
                                             variant=var, alphabet=alpha, subclass=sub)})
+                if fam in deep:
+                    for order in ('asc', 'desc', 'mid'):
+                        for sizes in ((2, 2), (2, 3), (3, 2)):
+                            js.append({'fn': 'job', 'weight': w * 5, 'group': '%s/thin' % impl,
+                                       'args': dict(fam=fam, kind=kind, impl=impl, sizes=sizes,
+                                                    n=10 if tier == 'quick' else 12,
+                                                    variant='centred', alphabet='slim',
+                                                    subclass=False, thin=order)})
     return js
 
 
@@ -150,9 +158,9 @@ def checker_monitor(sizes, use_check):
     return tmon, smon
 
 
-def job(fam, kind, impl, sizes, n, variant, alphabet, subclass):
+def job(fam, kind, impl, sizes, n, variant, alphabet, subclass, thin=None):
     ex = S.explorer(fam, kind, impl, sizes, n, variant, 'C03', alphabet=alphabet,
-                    subclass=subclass)
+                    subclass=subclass, thin=thin)
     ex.base_case['alphabet'] = alphabet
     ex.base_case['subclass'] = subclass
     tmon, smon = checker_monitor(sizes, use_check=not subclass)
